@@ -31,7 +31,7 @@ type HistCfg struct {
 	MultiLineDesc bool
 }
 
-var segPoolASCII = []string{"Bank", "Cash", "Broker", "Aktien", "A1", "Salary", "Food", "Rent", "Loan", "Card", "Opening", "Sub", "X", "Y2", "Deep", "B"}
+var segPoolASCII = []string{"Bank", "Cash", "Broker", "Aktien", "A1", "Salary", "Food", "Rent", "Loan", "Card", "Opening", "Sub", "X", "Y2", "Deep", "B", "Assets", "AssetsPool", "Liabilities", "IncomeFund", "Equity"}
 var segPoolUni = []string{"Börse", "口座", "Épargne", "Ärzte", "Ж1"}
 var comPool = []string{"CHF", "USD", "EUR", "AAPL", "BTC", "X1", "Gold"}
 var comPoolUni = []string{"Ä", "円"}
@@ -61,10 +61,11 @@ type History struct {
 	phase int
 	ds    []ref.Directive
 	// price forest: parent[i] is the index of the parent commodity of coms[i] (-1 for root)
-	parent []int
-	priced map[[3]string]bool // (day, a, b) with a<b: a price for the pair was declared that day
-	never  map[int]bool       // Prices == 2: edges that are never declared
-	descN  int
+	parent    []int
+	priced    map[[3]string]bool    // (day, a, b) with a<b: a price for the pair was declared that day
+	never     map[int]bool          // Prices == 2: edges that are never declared
+	lastPrice map[int]ref.Directive // last declaration per edge
+	descN     int
 }
 
 // GenJournal draws an accepted journal (by construction, per the statement of C04).
@@ -347,6 +348,14 @@ func (h *History) drawPerf(d *ref.Directive) {
 	}
 }
 
+func (h *History) edgeIdx() []int {
+	var idx []int
+	for i := 1; i < len(h.coms); i++ {
+		idx = append(idx, i)
+	}
+	return idx
+}
+
 func (h *History) pairKey(a, b string) [3]string {
 	if a > b {
 		a, b = b, a
@@ -384,6 +393,14 @@ func (h *History) emitPrice(i int) {
 	if rapid.IntRange(0, 3).Draw(t, "inverse") == 0 {
 		d.Com, d.Target = p, c
 	}
+	if last, ok := h.lastPrice[i]; ok && rapid.IntRange(0, 2).Draw(t, "repeatQuote") == 0 {
+		// the same quote again (holiday carry-over, pegged currency)
+		d.Com, d.Target, d.Price = last.Com, last.Target, last.Price
+	}
+	if h.lastPrice == nil {
+		h.lastPrice = map[int]ref.Directive{}
+	}
+	h.lastPrice[i] = d
 	h.ds = append(h.ds, d)
 }
 
@@ -520,9 +537,17 @@ func (h *History) step(act int) {
 			}
 		}
 		h.ds = append(h.ds, ref.Directive{Kind: ref.KClose, Date: h.day, Account: a.name})
-	case 4: // price change
+	case 4: // price change: one edge, or a batch of quotes for several edges on one day
 		if cfg.Prices == 0 || len(h.coms) < 2 {
 			h.step(1)
+			return
+		}
+		if len(h.coms) > 2 && rapid.IntRange(0, 2).Draw(t, "priceBatch") == 0 {
+			for _, i := range rapid.Permutation(h.edgeIdx()).Draw(t, "batchOrder") {
+				if rapid.IntRange(0, 3).Draw(t, "batchSkip") != 0 {
+					h.emitPrice(i)
+				}
+			}
 			return
 		}
 		h.emitPrice(rapid.IntRange(1, len(h.coms)-1).Draw(t, "priceWhich"))
